@@ -20,6 +20,7 @@ PEXPECT LICENSE
 
 """
 
+import errno
 import socket
 from contextlib import contextmanager
 
@@ -76,7 +77,14 @@ class SocketSpawn(SpawnBase):
             return
 
         self.flush()
-        self.socket.shutdown(socket.SHUT_RDWR)
+        try:
+            self.socket.shutdown(socket.SHUT_RDWR)
+        except OSError as e:
+            # The connection may be gone already (reset by the peer, never
+            # established): nothing is left to shut down, but the descriptor is
+            # still ours to release.
+            if e.errno != errno.ENOTCONN:
+                raise
         self.socket.close()
         self.child_fd = -1
         self.closed = True
